@@ -219,8 +219,8 @@ def run(ctx):
     ok = len(look) == 1 and len(ctors) == 1 and strip_ids(list(look[0].args.values())[0]) == peer
     ctx.check(ok, 'Y4', 'an IKE_SA is looked up by the template destination (id.daddr, in the template\'s family)', key=('Y4', 'addresses'),
               site=site, detail={'lookup': [tq.text(v) for c in look for v in c.args.values()]})
-    ok = ok and look[0].seq < ctors[0].seq and common.miss_path(ctors[0].pc) \
-        and not any(a[0][0] == 'caught' for a in look[0].pc)
+    ok = ok and look[0].seq < ctors[0].seq and not any(a[0][0] == 'caught' for a in look[0].pc) and common.lookup_missed(
+        ctors[0].pc, common.lookup_protocol(ctx, 'ikesacontroller.IkeSaController._get_ike_sa_by_peer_addr'), look[0].term)
     ctx.check(ok, 'Y4', 'an IKE_SA with that peer is looked up first; a new one is created only when there is none', key=('Y4', 'reuse'), site=site)
     bp = ctx.func('ikesacontroller.IkeSaController._get_ike_sa_by_peer_addr')
     B = ctx.sval(bp)
